@@ -319,7 +319,7 @@ fn gen_cb_op<P: Pad>(r: &mut RandomDir, w: &mut World<P>, kind: CbKind, me: u32)
             _ => None,
         };
     }
-    if kind == CbKind::Finalize && r.cfg.weak && w.nw > 0 && rng.gen_bool(0.22) {
+    if kind == CbKind::Finalize && r.cfg.weak && w.nw > 0 && rng.gen_bool(0.3) {
         // upgrade one of my own weak fields (a neighbour, possibly of the set being reclaimed)
         return Some(json!({"e": "call", "op": "upgradef", "a": me, "k": "w", "i": rng.gen_range(1..=w.nw)}));
     }
